@@ -14,7 +14,7 @@ SPEC = {
     "trusted_base": [],
 }
 
-KEEP = ("B", "EB", "UB", "UT", "BMAP", "MAP", "OBS", "EQ")
+KEEP = ("B", "EB", "UT", "BMAP", "MAP", "OBS", "EQ")
 
 
 def reg_file(rng, n, zero_at=None):
@@ -72,6 +72,8 @@ def run(ctx):
         parts = {p.strip().split(" ", 1)[0]: p.strip().split()[1:] for p in o.split("|")}
         if parts["B"] != parts["EB"]:
             ctx.violation("ElementsToBytes differs from Bytes position by position", {"case": l, "impl": o})
+        if parts["UB"] != parts["US"]:
+            ctx.violation("BatchToBytesUncompressed differs from BytesUncompressedTrusted", {"case": l, "impl": o})
         if parts["MAP"] != parts["BMAP"]:
             ctx.violation("BatchMapToScalarField differs from MapToScalarField", {"case": l, "impl": o})
         if "BN-ERROR-MODIFIED" in o:
